@@ -266,7 +266,68 @@ Definition response_match (rs : list resp_rule) (ips : list N) : option N :=
 Definition resp_spec_rules (rs : list resp_rule) : list (bool * list prefix) :=
   map (fun r => (rr_not r, rr_values r)) rs.
 
-(* ---------- vocabulary of the theorems' hypotheses ---------- *)
+(* ---------- KernspaceSnapshot / BuildUserspace / snapshot.BuildKernspace, in whatever order ---------- *)
+(* control_plane.go takes builder.KernspaceSnapshot() right after the builder exists; first start: BuildKernspace
+   from the snapshot, then builder.BuildUserspace(); staged reload: BuildUserspace first, the snapshot is turned
+   into kernel keys at listener cutover (CommitPreparedDatapath) and again on rollback (RebuildReloadDatapath).
+   KernspaceSnapshot copies the slice HEADER of simulatedLpmTries: snapshot and builder share one backing array.
+   BuildUserspace ends by releasing the builder's fields (field := nil); `clear_on_release` says whether it also
+   writes the shared backing array (clear(b.simulatedLpmTries), or elem := nil while building).  The code as it
+   stands does not: clear_on_release = false is the model of the code, true is the aliasing hazard. *)
+Inductive bstep := SSnapshot | SInstall | SUserspace.
+Record mem := {
+  m_array : list (list prefix);                 (* the backing array of b.simulatedLpmTries *)
+  m_builder : bool;                             (* b.simulatedLpmTries still points at it (false: nil) *)
+  m_snap : option bool;                         (* snapshot taken; its simulatedLpmTries points at the array / is nil *)
+  m_lpm : option (list (list (list bool)));     (* RoutingMatcher.lpmMatcher once BuildUserspace ran *)
+  m_installs : list (list (list lpm_key))       (* per BuildKernspace call, per stored set: the keys for newLpmMap *)
+}.
+Definition mem_init (tries : list (list prefix)) : mem :=
+  {| m_array := tries; m_builder := true; m_snap := None; m_lpm := None; m_installs := [] |}.
+(* buildRoutingKernspace: keys[j] = cidrToBpfLpmKey(cidr) for every stored set *)
+Definition kernel_keys_of (big : bool) (tries : list (list prefix)) : list (list lpm_key) :=
+  map (map (cidr_to_lpm_key big)) tries.
+Definition bstep_run (clear_on_release big : bool) (m : mem) (s : bstep) : option mem :=
+  match s with
+  | SSnapshot =>
+      Some {| m_array := m_array m; m_builder := m_builder m; m_snap := Some (m_builder m);
+              m_lpm := m_lpm m; m_installs := m_installs m |}
+  | SInstall =>
+      match m_snap m with
+      | Some true =>
+          Some {| m_array := m_array m; m_builder := m_builder m; m_snap := m_snap m; m_lpm := m_lpm m;
+                  m_installs := m_installs m ++ [kernel_keys_of big (m_array m)] |}
+      | _ => None                                (* no snapshot / "no routing rules to build" *)
+      end
+  | SUserspace =>
+      if m_builder m then
+        Some {| m_array := (if clear_on_release then map (fun _ => []) (m_array m) else m_array m);
+                m_builder := false; m_snap := m_snap m;
+                m_lpm := Some (build_userspace (m_array m)); m_installs := m_installs m |}
+      else None                                  (* the builder was already released *)
+  end.
+Fixpoint order_run (clear_on_release big : bool) (m : mem) (order : list bstep) : option mem :=
+  match order with
+  | [] => Some m
+  | s :: rest => match bstep_run clear_on_release big m s with
+                 | Some m' => order_run clear_on_release big m' rest
+                 | None => None
+                 end
+  end.
+(* does the kernel map written from one key list match the address *)
+Definition keys_match (big : bool) (keys : list lpm_key) (a : N) : bool :=
+  is_some (lpm_lookup (map (lpm_node_of_key big) keys) (lpm_node_of_key big (probe_key big a))).
+
+(* ---------- vocabulary of the theorems ---------- *)
+(* the canonical prefix list of every stored set, as addIp/addSourceIp/addSourceMac left them *)
+Definition canonical_tries (hash : list prefix -> N) (ops : list op) : list (list prefix) := b_tries (run hash ops).
+
+(* what addIp/addSourceIp store for a rule is the canonical list of what it was given; addSourceMac stores the
+   /128 prefixes as they come *)
+Definition stored_form (r : rule) : list prefix :=
+  match r_role r with RMac => r_values r | _ => canonicalize (r_values r) end.
+
+
 Definition wf_op (o : op) : bool :=
   match o with OpIp _ _ vs => forallb wf_prefix vs | OpMac _ ms => forallb wf_mac ms end.
 Definition wf_packet (k : packet) : bool := wf_addr (k_dst k) && wf_addr (k_src k) && wf_addr (k_mac k).
